@@ -310,11 +310,17 @@ class ScriptedOptimizer(Optimizer):
         log.initial = np.array(initial_values, copy=True)
         options = self._config.optimizer.options
         assert isinstance(options, dict)
+        buffers: dict[Any, NDArray[np.float64]] = {}
         for x, want_f, want_g in options["script"]:
-            x_arr = np.array(x, dtype=np.float64)
-            log.requests.append((x_arr.copy(), bool(want_f), bool(want_g)))
+            value = np.array(x, dtype=np.float64)
+            # like real algorithms, one array per shape is kept and overwritten in place for every request (and
+            # scribbled on after the call-back returned): whatever is kept of a request must be a copy
+            x_arr = buffers.setdefault(value.shape, np.empty(value.shape))
+            x_arr[...] = value
+            log.requests.append((value.copy(), bool(want_f), bool(want_g)))
             functions, gradients = self._callback(x_arr, return_functions=bool(want_f), return_gradients=bool(want_g))
             log.answers.append((np.array(functions, copy=True), np.array(gradients, copy=True)))
+            x_arr[...] = -98765.0
 
     @property
     def allow_nan(self) -> bool:
